@@ -177,6 +177,7 @@ pub fn c17(ctx: &mut Ctx) {
     // Random histories meet such a pair with probability 2^-32; here the pairs are computed.
     if !small {
         weak_key_histories(ctx);
+        semantic_key_histories(ctx);
     }
 
     // ---- H1 + H2 + H3: randomised histories ----------------------------------------------
@@ -772,4 +773,139 @@ fn weak_key_histories(ctx: &mut Ctx) {
     }
     ctx.cell("weak-key-adjacent-calls");
     ctx.extra.insert("weak_key_pairs".into(), json!({"literal_length": len, "pairs_per_weak_key": by_hash}));
+}
+
+/// H1-s: operands that are *different* but equal under a normalisation somebody might key a memo
+/// on (letter case, surrounding blanks, the string form, the double they denote, a prefix, a suffix,
+/// the length), and the *same* operand through every route by which a value is converted (a memo
+/// shared by two conversions answers the second with the result of the first). Each family member is
+/// driven through all routes back to back, in two orders, then the members alternate route by
+/// route; every call is judged against the model (an earlier call may already have left
+/// something behind, so "the first result" would not be a safe reference here).
+fn semantic_key_histories(ctx: &mut Ctx) {
+    let s = |x: &str| Value::String(x.to_string());
+    let n = |x: &str| -> Value { serde_json::from_str(x).unwrap() };
+    let long_a: String = "1234567890".repeat(7);
+    let mut fam: Vec<(&str, Vec<Value>)> = vec![
+        ("case", vec![s("Infinity"), s("INFINITY"), s("infinity"), s("iNFINITY")]),
+        ("case", vec![s("-Infinity"), s("-INFINITY"), s("-infinity")]),
+        ("case", vec![s("0x1f"), s("0X1F"), s("0x1F"), s("0X1f")]),
+        ("case", vec![s("1e3"), s("1E3"), s("1e+3"), s("1000")]),
+        ("case", vec![s("NaN"), s("nan"), s("NAN")]),
+        ("case", vec![s("true"), s("TRUE"), s("True"), json!(true)]),
+        ("case", vec![s("abc"), s("ABC"), s("Abc")]),
+        ("case", vec![s("\u{e9}"), s("\u{c9}"), s("e\u{301}"), s("E\u{301}")]),
+        ("blanks", vec![s("12"), s(" 12"), s("12 "), s(" 12 "), s("1 2"), s("\t12\n")]),
+        ("blanks", vec![s("12px"), s("12 px"), s(" 12px"), s("12"), n("12")]),
+        ("blanks", vec![s(""), s(" "), s("  "), s("\u{feff}"), s("\u{a0}")]),
+        ("blanks", vec![s("a b"), s("ab"), s(" ab"), s("a  b")]),
+        ("string-form", vec![n("0"), s("0"), n("[0]"), n("[[0]]"), n("0.0"), n("-0.0"), s("-0")]),
+        ("string-form", vec![json!(false), s("false"), n("[false]"), json!(null), s("null"), n("[null]"), s("")]),
+        ("string-form", vec![n("1"), s("1"), n("[1]"), n("1.0"), s("1.0"), n("[1.0]"), json!(true)]),
+        ("string-form", vec![n("[1,2]"), s("1,2"), n("[[1],[2]]"), n("[1,[2]]"), n("[\"1\",\"2\"]"), n("[\"1,2\"]")]),
+        ("string-form", vec![n("{}"), s("[object Object]"), n("[{}]"), n("{\"a\":1}"), n("{\"b\":2}")]),
+        ("string-form", vec![n("[]"), s(""), n("[[]]"), n("[null]"), n("[\"\"]"), n("[[],[]]"), s(",")]),
+        ("same-double", vec![n("9007199254740992"), n("9007199254740993"), n("9007199254740992.0"), s("9007199254740993"), s("9007199254740992")]),
+        ("same-double", vec![n("9223372036854775807"), n("9223372036854775808"), n("9223372036854775806"), n("9223372036854775808.0"), s("9223372036854775807")]),
+        ("same-double", vec![n("18446744073709551615"), n("18446744073709551614"), n("18446744073709551616.0"), s("18446744073709551615")]),
+        ("same-double", vec![n("-9223372036854775808"), n("-9223372036854775807"), n("-9223372036854775809.0")]),
+        ("same-double", vec![n("0.1"), n("0.10000000000000001"), n("0.1000000000000000055511151231257827"), s("0.1"), s("0.10000000000000001")]),
+        ("same-double", vec![n("1"), n("1.0"), n("1e0"), n("10e-1"), s("1e0"), s("0x1"), s("01")]),
+        ("same-number", vec![s("16"), s("0x10"), s("0b10000"), s("0o20"), s("16.0"), s("1.6e1"), n("16")]),
+        ("same-number", vec![s("10"), s("1e1"), s("10.0"), s("010"), s("+10"), n("10")]),
+        ("length", vec![s("ab"), s("cd"), s("12"), s("1e"), s("0x")]),
+        ("length", vec![s("1234567"), s("7654321"), s("12345.7"), s("abcdefg")]),
+        ("prefix", vec![s(&format!("{}7", long_a)), s(&format!("{}8", long_a)), s(&format!("{}.5", long_a)), s(&format!("{}x", long_a))]),
+        ("suffix", vec![s(&format!("7{}", long_a)), s(&format!("8{}", long_a)), s(&format!("-{}", long_a)), s(&format!(" {}", long_a))]),
+        ("middle", vec![s(&format!("{}5{}", long_a, long_a)), s(&format!("{}6{}", long_a, long_a)), s(&format!("{}.{}", long_a, long_a))]),
+        ("prefix", vec![s("a.b.c"), s("a.b.d"), s("a.b"), s("a.b.c.d"), s("a\\.b.c")]),
+    ];
+    // every family in every shard (they are cheap); the starting point differs per shard
+    let rot = (ctx.shard as usize) % fam.len();
+    fam.rotate_left(rot);
+    type Route = Box<dyn Fn(&Value) -> (Value, Value)>;
+    let routes: Vec<Route> = vec![
+        Box::new(|v| (json!({"+": [v]}), Value::Null)),
+        Box::new(|v| (json!({"*": [v, 1]}), Value::Null)),
+        Box::new(|v| (json!({"-": [v]}), Value::Null)),
+        Box::new(|v| (json!({"/": [v, 1]}), Value::Null)),
+        Box::new(|v| (json!({"%": [v, 7]}), Value::Null)),
+        Box::new(|v| (json!({"max": [v, 0]}), Value::Null)),
+        Box::new(|v| (json!({"min": [v, 1e300]}), Value::Null)),
+        Box::new(|v| (json!({"==": [v, 1]}), Value::Null)),
+        Box::new(|v| (json!({"==": [v, "1"]}), Value::Null)),
+        Box::new(|v| (json!({"!=": [v, 16]}), Value::Null)),
+        Box::new(|v| (json!({"==": [{"var": "x"}, {"var": "y"}]}), json!({"x": v, "y": v}))),
+        Box::new(|v| (json!({"===": [v, 1]}), Value::Null)),
+        Box::new(|v| (json!({"===": [{"var": "x"}, 9007199254740992u64]}), json!({ "x": v }))),
+        Box::new(|v| (json!({"<": [v, "5e300"]}), Value::Null)),
+        Box::new(|v| (json!({"<": [1, v]}), Value::Null)),
+        Box::new(|v| (json!({"<=": [v, 12]}), Value::Null)),
+        Box::new(|v| (json!({">=": [{"var": "x"}, "12"]}), json!({ "x": v }))),
+        Box::new(|v| (json!({"<": [0, v, "a"]}), Value::Null)),
+        Box::new(|v| (json!({"cat": [v, "|", v]}), Value::Null)),
+        Box::new(|v| (json!({"cat": [[v, v]]}), Value::Null)),
+        Box::new(|v| (json!({"in": [v, [0, "1", 1.0, [1], 9007199254740992u64, "abc", null]]}), Value::Null)),
+        Box::new(|v| (json!({"in": [{"var": "x"}, {"var": "h"}]}), json!({"x": v, "h": "12 INFINITY abc 1,2 false"}))),
+        Box::new(|v| (json!({"!!": [v]}), Value::Null)),
+        Box::new(|v| (json!({"!": [{"var": "x"}]}), json!({ "x": v }))),
+        Box::new(|v| (json!({"if": [v, "t", "f"]}), Value::Null)),
+        Box::new(|v| (json!({"and": [v, "x"]}), Value::Null)),
+        Box::new(|v| (json!({"filter": [[1, 2, 3, 12, 16], {"<": [{"var": ""}, v]}]}), Value::Null)),
+        Box::new(|v| (json!({"some": [[v, 1], {"==": [{"var": ""}, 16]}]}), Value::Null)),
+        Box::new(|v| (json!({"map": [[v, v], {"cat": [{"var": ""}, "."]}]}), Value::Null)),
+        Box::new(|v| (json!({"reduce": [[v, v], {"+": [{"var": "current"}, {"var": "accumulator"}]}, 0]}), Value::Null)),
+        Box::new(|v| (json!({"merge": [v, [v]]}), Value::Null)),
+        Box::new(|v| (json!({"var": [v, "D"]}), json!({"a": {"b": {"c": 1, "d": 2}}, "12": "k12", "ab": "kab", "1": "k1", "0": "k0", "": "kempty", "true": "kt", "Infinity": "kinf", "16": "k16", "10": "k10"}))),
+        Box::new(|v| (json!({"var": [v, "D"]}), json!(["e0", "e1", "e2"]))),
+        Box::new(|v| (json!({"missing": [v, "zz"]}), json!({"a": {"b": {"c": 1}}, "12": 1, "ab": 1, "1": 1, "Infinity": 1}))),
+        Box::new(|v| (json!({"missing_some": [1, [v, "zz"]]}), json!({"a": {"b": {"d": 1}}, "16": 1, "abc": 1}))),
+        Box::new(|v| (json!({"substr": [v, 1, 3]}), Value::Null)),
+        Box::new(|v| (json!({"substr": ["abcdefghijklmnop", v]}), Value::Null)),
+        Box::new(|v| (json!({"log": [v]}), Value::Null)),
+    ];
+    let mut calls = 0u64;
+    let mut run = |ctx: &mut Ctx, route: usize, v: &Value| {
+        let (r, d) = routes[route](v);
+        let obs = ctx.observe(&r, &d);
+        let (mo, tr) = refsem::model(&r, &d);
+        ctx.judge("c17.semantic-key-history", &r, &d, &obs, &mo, &tr);
+        calls += 1;
+    };
+    let nr = routes.len();
+    for (fi, (kind, members)) in fam.iter().enumerate() {
+        // (1) one member through every route, in two different orders (route crossing on one operand)
+        for v in members.iter() {
+            let mut order: Vec<usize> = (0..nr).collect();
+            for _pass in 0..2 {
+                for k in (1..nr).rev() {
+                    order.swap(k, ctx.rng.below(k + 1));
+                }
+                for &ro in order.iter() {
+                    run(ctx, ro, v);
+                }
+            }
+        }
+        // (2) members alternate on each route: A B A B B A
+        for ro in 0..nr {
+            for a in 0..members.len() {
+                let b = (a + 1 + (fi % (members.len() - 1).max(1))) % members.len();
+                if a == b {
+                    continue;
+                }
+                for v in [&members[a], &members[b], &members[a], &members[b], &members[b], &members[a]] {
+                    run(ctx, ro, v);
+                }
+            }
+        }
+        // (3) all members through a random route each, many times (a small table that fills up)
+        for _ in 0..200 {
+            let v = &members[ctx.rng.below(members.len())];
+            let ro = ctx.rng.below(nr);
+            run(ctx, ro, v);
+        }
+        ctx.mark_nontrivial_key(&format!("c17:semantic-key:{}:{}", kind, fi));
+        ctx.cell(&format!("semantic-key:{}", kind));
+    }
+    ctx.extra.insert("semantic_key_calls".into(), json!(calls));
 }
